@@ -871,8 +871,15 @@ func (ns *NurseryStore) enterCrib(tx kvdb.RwTx, baby *babyOutput) error {
 	}
 
 	// We'll first check that we don't already have an entry for this
-	// output. If we do, then we can exit early.
-	if rawBytes := chanBucket.Get(pfxOutputKey); rawBytes != nil {
+	// output. If we do, then we can exit early. The output may have left
+	// the crib already, so we look for it in every state: adding it to the
+	// crib a second time would have the nursery track the same outpoint
+	// twice and run its incubation all over again.
+	known, err := outputKnown(chanBucket, baby.OutPoint())
+	if err != nil {
+		return err
+	}
+	if known {
 		return nil
 	}
 
@@ -927,9 +934,14 @@ func (ns *NurseryStore) enterPreschool(tx kvdb.RwTx, kid *kidOutput) error {
 		return err
 	}
 
-	// We'll first check if an entry for this key is already stored. If so,
-	// then we'll ignore this request, and return a nil error.
-	if rawBytes := chanBucket.Get(pfxOutputKey); rawBytes != nil {
+	// We'll first check if an entry for this output is already stored, in
+	// the preschool or any later state. If so, then we'll ignore this
+	// request, and return a nil error.
+	known, err := outputKnown(chanBucket, kid.OutPoint())
+	if err != nil {
+		return err
+	}
+	if known {
 		return nil
 	}
 
@@ -940,6 +952,27 @@ func (ns *NurseryStore) enterPreschool(tx kvdb.RwTx, kid *kidOutput) error {
 	}
 
 	return chanBucket.Put(pfxOutputKey, kidBuffer.Bytes())
+}
+
+// outputKnown returns true if the channel bucket holds an entry for the given
+// outpoint in any of the states an output moves through.
+func outputKnown(chanBucket kvdb.RBucket, outpoint wire.OutPoint) (bool,
+	error) {
+
+	for _, prefix := range [][]byte{
+		cribPrefix, psclPrefix, kndrPrefix, gradPrefix,
+	} {
+		pfxOutputKey, err := prefixOutputKey(prefix, outpoint)
+		if err != nil {
+			return false, err
+		}
+
+		if chanBucket.Get(pfxOutputKey) != nil {
+			return true, nil
+		}
+	}
+
+	return false, nil
 }
 
 // createChannelBucket creates or retrieves a channel bucket for the provided
